@@ -26,6 +26,15 @@ def dumpToks (e : Option Entry) : List String :=
      "k=" ++ joinOr ((dumpChunks e).map fun c => s!"{c.off}:{c.data.length}:{c.gen}:{hexOfNats c.data}"),
      "rd=" ++ hexOfNats (readBack e)]
 
+/-- insertion into a list of tokens sorted as Go's sort.Strings does (hex tokens: bytewise = by characters) -/
+def insTok (t : String) : List String → List String
+  | [] => [t]
+  | x :: xs => if t ≤ x then t :: x :: xs else x :: insTok t xs
+
+/-- `gc=`: the data of the chunks uploaded by this request that were handed to a deletion sink, sorted -/
+def gcTok (del : List MChunk) : String :=
+  "gc=" ++ joinOr ((del.map fun c => hexOfNats c.data).foldr insTok [])
+
 def parseChunk (t : String) : MChunk :=
   match t.splitOn ":" with
   | off :: _ :: gen :: dat :: _ => { off := tokNat off, gen := tokNat gen, data := tokBytes dat }
@@ -60,7 +69,11 @@ def covUpload (cs limit : Nat) (isAppend etc : Bool) (body : List Nat) (failAt :
      (if k % cs = 0 ∧ k ≠ 0 then ["COV upload.read-error-at-chunk-edge"] else []) ++
      (if k % cs ≠ 0 then ["COV upload.read-error-mid-chunk"] else []) ++
      (if k + 1 = body.length then ["COV upload.read-error-at-last-byte"] else []) ++
-     (if u.chunks ≠ [] then ["COV upload.read-error-after-chunks"] else [])) ++
+     (if u.chunks ≠ [] then ["COV upload.read-error-after-chunks"] else []) ++
+     (if u.readErr then ["COV upload.read-error-reported"] else []) ++
+     (if u.readErr ∧ u.chunks.length > 1 then ["COV upload.read-error-deletes-chunks"] else []) ++
+     (if u.readErr ∧ isAppend then ["COV upload.read-error-on-append"] else []) ++
+     (if !u.readErr ∧ u.small ≠ [] then ["COV upload.read-error-hidden-by-inline"] else [])) ++
   (if isAppend then ["COV upload.append"] else [])
 
 def step (st : St) (n : Nat) (ln : Line) : St × List String :=
@@ -89,11 +102,11 @@ def step (st : St) (n : Nat) (ln : Line) : St × List String :=
     let m : Method := if ln.op == "put" ∨ ln.op == "putnet" then .put else if ln.op == "postraw" then .postRaw else .postMultipart
     let gen := st.opNo + 1
     let existing := st.model.lookup key
-    let (status, e') := handle existing m isAppend cs st.limit etc gen avail failAt.isSome
+    let (status, e', del) := handle existing m isAppend cs st.limit etc gen avail failAt.isSome
     let u := uploadReaderToChunks cs st.limit isAppend etc gen avail failAt.isSome
     -- judge over the implementation's outputs
     let istatus := tokNat (o.getD 0 "0")
-    let inow := parseDump (o.drop 1)
+    let inow := parseDump (o.drop 2)
     let iprev := st.impl.lookup key
     let q : Req := { raw := m == .postRaw, isAppend := isAppend, cs := cs, limit := st.limit, etc := etc, body := body, failAt := failAt }
     let j := writeJudge q iprev istatus inow
@@ -108,9 +121,11 @@ def step (st : St) (n : Nat) (ln : Line) : St × List String :=
       (if ln.op == "postd" then ["COV post.to-directory"] else []) ++
       (if ln.op == "putnet" then ["COV put.real-connection"] else []) ++
       (if ln.op == "putnet" ∧ failAt.isSome then ["COV put.real-connection-cut"] else []) ++
+      (if m == .postMultipart ∧ failAt.isSome then ["COV post.failing-body"] else []) ++
+      (if m != .postRaw ∧ failAt.isSome ∧ existing.isSome then ["COV write.failing-body-over-existing"] else []) ++
       (if m != .postRaw ∧ !isAppend ∧ existing.isSome then ["COV write.overwrite"] else [])
     let st' := { st with opNo := gen, model := put st.model key e', impl := put st.impl key inow }
-    (st', diff n ln (toString status :: dumpToks e') ++ judgeOut n j (s!"{ln.op} {a.take 5}") ++ cov)
+    (st', diff n ln (toString status :: gcTok del :: dumpToks e') ++ judgeOut n j (s!"{ln.op} {a.take 5}") ++ cov)
   | _ => (st, [s!"DIFF {n} unknown-op {ln.op}"])
 
 def main : IO Unit := run { init := ({} : St), step := step }
